@@ -300,6 +300,9 @@ type InjectorProviderCallStmt struct {
 	Provider  *ProviderSpec
 	Arguments []*InjectorCallArgument
 	Returns   []*InjectorParam
+
+	// ctxName is the name of the context local of the injector the statement is emitted into
+	ctxName string
 }
 
 func (stmt *InjectorProviderCallStmt) HasAsync() bool {
@@ -378,4 +381,25 @@ type Injector struct {
 	Vars          []*InjectorParam
 	Stmts         []InjectorStmt
 	IsReturnError bool
+
+	// names of the locals the generated body declares for its errgroup and for the group's context;
+	// set by generateAsyncInitialization
+	egName  string
+	ctxName string
+}
+
+// errGroupName is the name of the local that holds the injector's errgroup.
+func (i *Injector) errGroupName() string {
+	if i == nil || i.egName == "" {
+		return "eg"
+	}
+	return i.egName
+}
+
+// contextName is the name of the local that holds the errgroup's context.
+func (i *Injector) contextName() string {
+	if i == nil || i.ctxName == "" {
+		return "ctx"
+	}
+	return i.ctxName
 }
